@@ -87,9 +87,15 @@ def ASet.delete (mi : MasterIndex) (a : ASet) (h : Handle) : ASet :=
   if idx < bt.value.length ∧ idx ≠ -1 then a.setSub h.type { bt with isSet := bt.isSet.set idx.toNat false }
   else a
 
-/-- positions and handles of one per-type map of the main index, first entries only -/
-def firstValuesOf (t : BlobType) (m : IMap) : List (Nat × Handle) :=
-  (m.zipIdx 1).filterMap fun (v, i) => if firstPos m v.id == (i : Int) then some (i, ⟨t, v.id⟩) else none
+/-- `Index.firstValues` for one per-type map `m` (added by the fix): walk `m.values()` counting the
+    position (`pos++`), yield the handle where `m.firstIndex(e.id) == pos` -/
+def firstValuesFrom (t : BlobType) (m : IMap) : Nat → List Val → List (Nat × Handle)
+  | _, [] => []
+  | pos, v :: vs =>
+    if firstPos m v.id == ((pos + 1 : Nat) : Int) then (pos + 1, ⟨t, v.id⟩) :: firstValuesFrom t m (pos + 1) vs
+    else firstValuesFrom t m (pos + 1) vs
+
+def firstValuesOf (t : BlobType) (m : IMap) : List (Nat × Handle) := firstValuesFrom t m 0 m
 
 /-- `MasterIndex.firstValues` (added by the fix): every handle of `idx[0]` once, with its blobIndex -/
 def firstValues (mi : MasterIndex) : List (Nat × Handle) :=
